@@ -10,6 +10,7 @@ out int{unsigned, size 1} b;
 out bool f = false;
 out enum{A,B} e;
 out str[6] s = "ab";
+out str[5] z = "";
 hook h;
 hook g;
 finishcode F;
@@ -221,8 +222,10 @@ class G:
             return "wait " + r.choice(['"ab"', '/a+b/', '"c"', '"Ab"i']) + ";"
         if k < 0.60:
             return "end;"
-        if k < 0.85:
+        if k < 0.80:
             return r.choice(ACTIONS) + ";"
+        if k < 0.85:
+            return self.action_block()
         if k < 0.88:
             return "finish;"
         if k < 0.91:
@@ -232,6 +235,22 @@ class G:
         if self.loop_depth > 0:
             return "break;"
         return self.match() + ";"
+
+    def action_block(self):
+        """action-only conditionals (no match inside): nested, with leaving actions (break / finish / yield) next to appends and assignments -
+        the shapes in which the placement of an action relative to the byte that triggers it, and the recorded state, can go wrong"""
+        r = self.r
+        act = lambda: r.choice(ACTIONS + ['z += [$last]', 'x += [$last]', 'z = ""', 'yield Y', 'finish F']) + ";"
+        leave = (lambda: r.choice(["break;", "break;", "finish;", "yield Y;"])) if self.loop_depth > 0 else (lambda: r.choice(["finish F;", "yield Y;", "finish;"]))
+        k = r.random()
+        c1, c2 = r.choice(CONDS), r.choice(CONDS)
+        if k < 0.35:
+            return f"if {c1} {{ if {c2} {{ {leave()} }} }}"
+        if k < 0.6:
+            return f"if {c1} {{ {act()} {leave()} }} else {{ {act()} }}"
+        if k < 0.8:
+            return f"if {c1} {{ {act()} }} elif {c2} {{ {leave()} }} else {{ {act()} }}"
+        return f"if {c1} {{ {act()} if {c2} {{ {act()} {leave()} }} else {{ {act()} }} }}"
 
     def seq(self, depth, lo=1, hi=3):
         n = self.r.randint(lo, hi)
@@ -257,7 +276,7 @@ class G:
             cls = []
             used = set()
             for _ in range(ncl):
-                m = self.match()
+                m = self.match() if r.random() > 0.08 else "end"
                 if m in used:
                     continue
                 used.add(m)
